@@ -288,6 +288,9 @@ def configs(tier):
     for name, kw in SPECIAL_DIST:
         for n in ([10] if q else [7, 20, 50]):
             add("tsp", "tsp", num_loc=n, loc_distribution=name, **kw)
+    # many points: a coordinate of the clustered samplers leaves the unit square with probability ~1e-4 before clamping
+    add("tsp", "tsp", B=64, num_loc=100, loc_distribution="cluster", n_cluster=3)
+    add("tsp", "tsp", B=64, num_loc=100, loc_distribution="mixed", n_cluster_mix=1)
     # --- ATSP ---
     for n in ([5, 10] if q else [3, 5, 10, 20]):
         add("atsp", "atsp", num_loc=n)
@@ -309,7 +312,7 @@ def configs(tier):
     add("cvrp", "cvrp", num_loc=10, min_loc=0.5, max_loc=1.0)
     add("cvrp", "cvrp", num_loc=10, min_loc=0.5, max_loc=1.0, depot_distribution="uniform")
     add("cvrp", "cvrp", num_loc=10, min_loc=0.5, max_loc=1.0, depot_distribution="corner")
-    add("cvrp", "cvrp", num_loc=10, min_loc=0.5, max_loc=1.0, depot_distribution="center")
+    add("cvrp", "cvrp", cls="center-sampler-offset-bounds", num_loc=10, min_loc=0.5, max_loc=1.0, depot_distribution="center")
     add("cvrp", "cvrp", num_loc=12, loc_distribution="cluster", n_cluster=3)
     add("cvrp", "cvrp", num_loc=12, loc_distribution="mix_distribution", n_cluster=3, n_cluster_mix=1)
     for n in ([10, 17] if q else [10, 17, 20, 50]):
@@ -325,7 +328,7 @@ def configs(tier):
     # --- OP: prize types, sizes, max length override ---
     for n in ([10, 20] if q else [5, 10, 20, 37, 50, 100]):
         for pt in ("dist", "const", "unif"):
-            add("op", "op", num_loc=n, prize_type=pt)
+            add("op", "op", cls="" if pt == "dist" else "prize-type", num_loc=n, prize_type=pt)
     add("op", "op", num_loc=10, max_length=1.5)
     add("op", "op", num_loc=10, depot_distribution="uniform")
     # --- PCTSP / SPCTSP ---
@@ -395,7 +398,7 @@ def configs(tier):
     # --- MCP: default shape, small shapes (few sets: the sampled maximum set size may stay below max_size) ---
     add("mcp", "mcp", B=2)
     add("mcp", "mcp", num_items=20, num_sets=10, n_sets_to_choose=3, min_size=2, max_size=4)
-    add("mcp", "mcp", B=1, nb=4 if q else 12, num_items=10, num_sets=3, n_sets_to_choose=2, min_size=1, max_size=4)
+    add("mcp", "mcp", B=1, nb=4 if q else 12, cls="few-sets", num_items=10, num_sets=3, n_sets_to_choose=2, min_size=1, max_size=4)
     add("mcp", "mcp", B=2, nb=2, num_items=6, num_sets=4, n_sets_to_choose=4, min_size=2, max_size=2)
     add("mcp", "mcp", num_items=30, num_sets=8, n_sets_to_choose=1, min_size=1, max_size=6, min_weight=2, max_weight=3)
     # --- DPP / MDPP on the synthetic chip data (harness/envs/dpp.py) ---
